@@ -16,7 +16,7 @@ LEVEL = "exploration"
 VARIANTS = ["fast"]
 RULE = ("strings: all of length<=3 (quick) / 4 (thorough) over 15 symbols + all single bytes 1..255; numbers: +-m*10^e, m in 1..99 and "
         "selected 3-6 digit mantissas, e in -37..37 (thorough: every m<10^6 at e in {-3,0,3,30}); arrays to depth 3; code: all C01 "
-        "k<=2 trees and statement samples; literal spellings: cross product of integer/fraction/exponent patterns and hex forms; "
+        "k<=2 trees, all 3-node trees over 10 levels (thorough: over 20 classes, and 4-node over 10 levels) and statement samples; literal spellings: cross product of integer/fraction/exponent patterns and hex forms; "
         "a case = one value/text; non-trivial = all (distinct values by construction)")
 ASSUMPTIONS = [
     "numbers are limited to <=6 significant digits and the normal float32 range, as the statement says; NUL is excluded from strings",
@@ -166,15 +166,25 @@ STATEMENT_SAMPLES = [
     'a = !true; b = !(c && d) || e', 'for "_i" from 1 to 2 step 1 do {a}', 'a = 1e10; b = 0.5; c = -0.25',
     'switch (a) do { case 1: {b}; default {c} }', 'a = []; b = [[]]; c = {}', 'a = b select c select d; e = f select (g select h)',
     'a = (b + c) * d; e = b + c * d; f = (b * c) + d; g = b - (c - d); h = (b - c) - d',
+    'a = (b - (c - d)) - e; f = (b / (c * d)) + e; g = (b && (c && d)) || e; h = b - ((c - d) - e); i = ((b - c) - d) - e; j = (b - (c + d)) * e',
 ]
 
 
-def gen_code():
+def gen_code(deep=False):
     def g():
         for b in c01.gen_operands_alone():
             yield ["tree", b]
         for b in c01.gen_k2_classes():
             yield ["tree", b]
+        # 3 binary nodes: a printer that decides parentheses from (own level, side, what the parent was) needs a
+        # grandparent to go wrong, e.g. (a - (b - c)) - d
+        for b in c01.gen_k3_levels(("B",), 3):
+            yield ["tree", b]
+        if deep:
+            for b in c01.gen_k3_levels(("B", "BU"), 3):
+                yield ["tree", b]
+            for b in c01.gen_k3_levels(("B",), 4):
+                yield ["tree", b]
         yield ["text", STATEMENT_SAMPLES]
     return g
 
@@ -326,7 +336,7 @@ def spaces(tier):
         Space("strings", gen_strings(3 if q else 4), check_strings, variant="fast", describe="every single byte and all strings up to length %d over 15 symbols" % (3 if q else 4)),
         Space("numbers", gen_numbers(not q), check_numbers, variant="fast", describe="+-m*10^e, <=6 significant digits" + ("" if q else ", plus every m<10^6 at 4 exponents")),
         Space("arrays", gen_arrays, check_arrays, variant="fast", describe="nested arrays to depth 3 over 8 leaf values incl. code and strings with quotes/newlines"),
-        Space("code", gen_code(), check_code, variant="fast", describe="every C01 k<=2 tree + operand forms + statement samples as code body: str -> compile, instruction-for-instruction"),
+        Space("code", gen_code(not q), check_code, variant="fast", describe="every C01 k<=2 tree, all 3-node trees over the 10 levels" + ("" if q else ", all 3-node trees over 20 classes, all 4-node trees over 10 levels") + ", operand forms, statement samples as code body: str -> compile, instruction-for-instruction"),
         Space("literals", gen_literals, check_literals, variant="fast", describe="decimal / leading-dot / exponent spellings (cross product of patterns) and $/0x hex forms vs exact nearest float32"),
-        Space("pretty", gen_code(), check_pretty, variant="fast", describe="formatter output of the same code bodies compiles to the same instruction sequence"),
+        Space("pretty", gen_code(not q), check_pretty, variant="fast", describe="formatter output of the same code bodies compiles to the same instruction sequence"),
     ]
